@@ -211,6 +211,21 @@ def register(reg):
             f"        (len(result[0]) == 0 or len(result[0]) + len(self.boundary) + 4 <= result[1] - {DS}) and "
             "        (self.state == 'State.PART' or self.state == 'State.EPILOGUE'))",
             "self.buffer == old(self.buffer) and self._search_position == old(self._search_position)",
+            # which delimiter it was decides where the decoder goes: `--boundary--` ends the message
+            "implies(not result[2], (self.state == 'State.EPILOGUE') == self.g_g1.startswith(b'--') and "
+            f"        data[:result[1]].endswith(b'--' + self.boundary + self.g_g1) and re_in(self.g_g1, '{TAIL}'))",
+        ],
+        raises={}, replay=replay_dec,
+    )
+    # a second contract on the same function, kept apart so that call sites (next_event) do not carry its string-search terms
+    reg.contract(
+        "werkzeug/sansio/multipart.py:MultipartDecoder._parse_data#retention", prop="C01,C02", self_model=MD,
+        params={"data": "bytearray", "start": "bool"},
+        returns="Tuple[bytes, int, bool]",
+        requires=["data == self.buffer", "implies(start, starts_lb(data))",
+                  "self.boundary_re.minlen == len(self.boundary) + 4 and self.boundary_re.boundary == self.boundary"],
+        modifies=["self.state", "self.g_g1"],
+        ensures=[
             # retention (the branch where `--boundary` is in the buffer but no complete delimiter is): everything from the last
             # LF and from the last CR of the pending bytes on is kept -- a delimiter that is still incomplete begins with one of
             # them, so it is never handed out as payload however far from the end it begins.  (The other branch, no `--boundary`
@@ -219,9 +234,6 @@ def register(reg):
             f"        result[1] <= {DS} + data[{DS}:].rfind(b'\\n'))",
             f"implies(result[2] and self.buffer.find(b'--' + self.boundary) != -1 and data[{DS}:].rfind(b'\\r') != -1, "
             f"        result[1] <= {DS} + data[{DS}:].rfind(b'\\r'))",
-            # which delimiter it was decides where the decoder goes: `--boundary--` ends the message
-            "implies(not result[2], (self.state == 'State.EPILOGUE') == self.g_g1.startswith(b'--') and "
-            f"        data[:result[1]].endswith(b'--' + self.boundary + self.g_g1) and re_in(self.g_g1, '{TAIL}'))",
         ],
         raises={}, replay=replay_dec,
     )
